@@ -24,6 +24,18 @@ Definition expected_exits : list (string * string) := [("break", "(calc_differen
 Definition expected_defs : list string :=
   ["baseline_old = baseline"; "calc_difference = relative_difference(baseline_old, baseline)"; "tol_history[i] = calc_difference"].
 
+Definition expected_tests : list string := ["conserve_memory"; "calc_difference < tol"; "use_threshold"; "i == 0"; "use_original"].
+(* every assignment inside the iteration: in particular `kernels` is bound once, by _loess_first_loop, and handed
+   unchanged to _loess_nonfirst_loops; no size threshold, cast or copy in between *)
+Definition expected_assignments : list string :=
+  ["baseline_old = baseline"; "calc_difference = relative_difference(baseline_old, baseline)"; "tol_history[i] = calc_difference";
+   "baseline = _loess_low_memory(x, y, sqrt_w, coefs, vandermonde, self._size, windows, fits)";
+   "y = np.minimum(y0 if use_original else y, baseline + num_std * np.std(y - baseline))";
+   "residual = y - baseline";
+   "sqrt_w = _tukey_square(residual / _median_absolute_value(residual), scale, symmetric_weights)";
+   "kernels, baseline = _loess_first_loop(x, y, sqrt_w, coefs, vandermonde, total_points, self._size, windows, fits)";
+   "baseline = _loess_nonfirst_loops(y, sqrt_w, coefs, vandermonde, kernels, windows, self._size, fits)"].
+
 Lemma strs_eqb_eq a : forall b, strs_eqb a b = true -> a = b.
 Proof.
   induction a as [|x a IH]; intros [|y b] H; try discriminate; [reflexivity|].
@@ -42,3 +54,6 @@ Proof.
   split; [apply String.eqb_eq; vm_compute; reflexivity|].
   split; [apply exits_eqb_eq; vm_compute; reflexivity|apply strs_eqb_eq; vm_compute; reflexivity].
 Qed.
+
+Lemma driver_loop_skeleton : loess_loop_tests = expected_tests /\ loess_loop_assignments = expected_assignments.
+Proof. split; apply strs_eqb_eq; vm_compute; reflexivity. Qed.
